@@ -45,6 +45,17 @@ THEOREMS = [
     # history; supersize / rotate on the object after any history = supersize / rotate of the visible state
     'C04.coherent_fresh', 'C04.recipC_spec', 'C04.sposC_spec', 'C04.step_coherent', 'C04.run_coherent',
     'C04.supersizeC_eq', 'C04.hist_supersize', 'C04.rotateC_eq', 'C04.hist_rotate',
+    # round 4 (Proofs/C04_Family.lean). the crystal family: which comparisons identifyfamily looks at (b against c is not
+    # among them), the families of the cells the library's constructors build, the family lists of the settings
+    'C04.identifyFamily_congr', 'C04.identifyFamily_c_irrelevant', 'C04.family_orthorhombic', 'C04.family_monoclinic',
+    'C04.family_triclinic', 'C04.family_triclinic_exact', 'C04.family_hexagonal', 'C04.familyAllowed_orthorhombic',
+    'C04.familyAllowed_monoclinic', 'C04.familyAllowed_hexagonal', 'C04.familyAllowed_none',
+    'C04.checkSettingBasis_member', 'C04.checkSettingBasis_refuses_family', 'C04.checkSites_eq_by',
+    # the lattice-site test at the caller's tolerance: exact sites pass any tolerance, monotone, periodic; the setting
+    # the conversion works with ('t' -> t2 for a cell passing the t2 test at the caller's tolerances)
+    'C04.onSite_imp_onSiteTol', 'C04.onSiteTol_mono', 'C04.filter_onSiteTol_mono', 'C04.onSiteTol_image',
+    'C04.resolveSetting_unchecked', 'C04.resolveSetting_explicit', 'C04.resolveSetting_t2', 'C04.resolveSetting_t1',
+    'C04.resolveSetting_t_refuses',
 ]
 PARTIAL = {
     'normalize_after_rotate': 'the final normalize step (rebuild the box LAMMPS-compatible, flip a left-handed cell, '
@@ -456,13 +467,71 @@ def near_face_atoms(rng, U):
     return make
 
 
+RUNGS = [Fraction(1, 10 ** 4), Fraction(1, 10 ** 5), Fraction(1, 10 ** 6), Fraction(1, 10 ** 7)]
+
+
+def on_rung_pairs(U, box, spos_list, rungs):
+    """number of (image class modulo the new lattice, coordinate) pairs whose distance from a face of the new cell - the
+    cell U.vects at the Cartesian origin - is EXACTLY one of `rungs` (exact rational arithmetic on the intended relative
+    coordinates `spos_list` of the original cell)."""
+    Vi = inv3([[Fraction(x) for x in row] for row in box.vects.tolist()])
+    orel = vecmat([Fraction(x) for x in box.origin.tolist()], Vi)
+    Ui = inv3([[Fraction(x) for x in r] for r in U])
+    d = abs(_det3(U))
+    rs = set(rungs)
+    cnt = 0
+    for e in spos_list:
+        seen = set()
+        for n in itertools.product(range(-4, 5), repeat=3):
+            seen.add(tuple(frac_mod1(x) for x in vecmat([Fraction(e[j]) + orel[j] + n[j] for j in range(3)], Ui)))
+            if len(seen) == d:
+                break
+        if len(seen) != d:
+            return None
+        cnt += sum(1 for r in seen for x in r if min(x, 1 - x) in rs)
+    return cnt
+
+
+def gen_onrung_case(rng, am, it):
+    """one atom, one coordinate, EXACTLY one rung of the tolerance ladder in use (to rounding noise) from a face of the new
+    cell, on either side of it; no other image of any atom on any rung. Whether that rung then assigns the atom and its
+    periodic image consistently is decided by rounding noise: when it does not, the rung miscounts and the next, tighter
+    one has to deliver the cell (from the real positions, not from the ones the failed rung rounded). A single atom on a
+    rung is never ambiguous - two on the same rung can cancel in the count test (the documented knife edge, not
+    generated) - and the ladder always has a further rung to go to.
+    -> (system, family, spos, U, det, tol argument, rung)"""
+    while True:
+        U, d = ([list(r) for r in FIXED_U[1 + it % 5]], None) if it % 4 == 0 else gen_U(rng, maxdet=5)
+        d = _det3(U)
+        if rng.random() < 0.75:
+            tol, ladder = None, RUNGS
+            rung = RUNGS[0] if rng.random() < 0.7 else rng.choice(RUNGS[1:])
+        else:
+            first = rng.choice([2.3e-5, 1.7e-6, 1.3e-4])
+            tol = rng.choice([[first, first / 13], (first, first / 16, first / 256), [3.1e-3, first, first / 13]])
+            ladder = [Fraction(x) for x in tol]
+            rung = Fraction(first)
+        below = rng.random() < 0.5
+        sysm, fam, spos = gen_system(rng, am, extra=lambda box: [near_face_spos(rng, U, box, delta=rung, below=below)],
+                                     far=rng.random() < 0.25)
+        if on_rung_pairs(U, sysm.box, [tuple(Fraction(x) if x != 1.0 else Fraction(1) for x in sp) for sp in spos], ladder) == 1:
+            return sysm, fam + '+on-rung', spos, U, d, tol, rung
+
+
+class Spec(list):
+    """[name, kind, string table] of the extra per-atom properties in wire order; `width`: numbers per atom on the wire."""
+    width = 0
+
+
 def spec_of(sysm):
-    """[name, kind, string table] of the extra per-atom properties in wire order."""
-    return [[name, kind, sorted(set(vals)) if kind == 's' else None] for name, kind, vals in sysm._c04['props']]
+    np = _np()
+    spec = Spec([name, kind, sorted(set(vals)) if kind == 's' else None] for name, kind, vals in sysm._c04['props'])
+    spec.width = sum(int(np.asarray(vals[0]).size) for _, _, vals in sysm._c04['props'])
+    return spec
 
 
 def nextra(spec):
-    return len(spec) - 4 + 1 + 3 + 9 + 1
+    return spec.width
 
 
 def payload(sysm, k, spec):
@@ -789,6 +858,36 @@ def correspond(ctx):
             ctx.disagree('supersize', f'supersize{sizes_repr(sizes)} differs from the model (family {fam}, per-atom '
                          f'properties {sysm.atoms_prop()}, history {sysm._c04["history"]})',
                          dict(rp, impl_natoms=int(new.natoms), model_natoms=len(atoms)))
+    # --- counts: replication counts at which float bookkeeping of "k steps of 1/k" goes wrong (49, 98, 103, 107 on every
+    #     run, a rotating sample of the others), one- and two-atom cells, atom for atom in order ---
+    traps = float_division_traps(260)
+    for n in [49, 98, 103, 107] + rng.sample(traps, ctx.n(3, 12)) + rng.sample(range(4, 260), ctx.n(3, 12)):
+        sysm, fam, _ = grid_system(am, rng, rng.choice([1, 2]), G=8)
+        sizes = [1, 1, 1]
+        sizes[rng.randrange(3)] = count_form(rng, n)
+        ns = [norm_size(x) for x in sizes]
+        spec = spec_of(sysm)
+        e = nextra(spec)
+        bl, al = sys_line(sysm, spec)
+        line = f"supersize {e} {sysm.natoms} {bl} " + ' '.join(f'{lo} {hi}' for lo, hi in ns) + ' ' + al
+        out = ctx.driver.ask(line)
+        ctx.stats.case('supersize-count', line, sample={'op': 'supersize', 'family': fam, 'sizes': [list(x) for x in ns],
+                                                        'natoms': sysm.natoms})
+        rp = {'op': 'supersize', 'case': sysm._c04, 'sizes': [list(x) for x in ns], 'sizes_given': sizes_repr(sizes)}
+        try:
+            new = sysm.supersize(*sizes)
+        except Exception as e_:  # noqa
+            ctx.disagree('supersize:impl-raises', f'supersize{sizes_repr(sizes)} raised {type(e_).__name__}: {e_}; the model '
+                         f'returns {n} x {sysm.natoms} atoms', rp)
+            continue
+        box, atoms = parse_result(out, e)
+        ok = (cm.allclose(list(new.box.vects.ravel()) + list(new.box.origin), box, rtol=1e-12, atol=1e-12)
+              and len(atoms) == new.natoms
+              and all(t == int(new.atoms.atype[k]) and cm.allclose(new.atoms.pos[k], p_, rtol=1e-9, atol=1e-9)
+                      and cm.allclose(payload(new, k, spec), ex, rtol=0, atol=0) for k, (t, p_, ex) in enumerate(atoms)))
+        if not ok:
+            ctx.disagree('supersize', f'supersize{sizes_repr(sizes)} ({n} replicas along one axis) differs from the model',
+                         dict(rp, impl_natoms=int(new.natoms), model_natoms=len(atoms)))
     # int forms of the multipliers (Python and numpy integers) and every (lo, hi) tuple with entries in [-3, 3]: ranges
     # that do not contain 0 and empty ranges are refused
     sysm, _, _ = gen_system(random.Random(5), am)
@@ -826,6 +925,18 @@ def correspond(ctx):
         sysm, fam, _, U, d = gen_case_U(rng, am, it, ctx.n(5, 8))
         arg, form, _ = gen_uvws_form(rng, U) if it >= len(FIXED_U) else (U, 'int-list', True)
         _corr_rotate(ctx, am, sysm, fam, U, d, 'rotate', arg, form)
+    # --- one atom exactly ON a rung of the tolerance ladder (the rung may miscount, the next one delivers the model's cell)
+    for it in range(ctx.n(24, 200)):
+        sysm, fam, _, U, d, tol, rung = gen_onrung_case(rng, am, it)
+        if tol is None:
+            _corr_rotate(ctx, am, sysm, fam, U, d, 'rotate-onrung', U, 'int-list')
+    # --- a bounding supercell spanning a trap count of cells along one axis ---
+    for n in [49] + rng.sample([k for k in traps if k <= 130], ctx.n(1, 6)):
+        sysm, fam, _ = grid_system(am, rng, 1, G=8)
+        U = [[1 if i == j else 0 for j in range(3)] for i in range(3)]
+        ax = rng.randrange(3)
+        U[ax][ax] = (n - 2) * rng.choice([-1, 1])
+        _corr_rotate(ctx, am, sysm, fam + f'+span{n}', U, _det3(U), 'rotate-span', U, 'int-list')
     # --- the identity shortcut (in every accepted form of the vectors) and one more matrix under each of the 8 pbc settings:
     #     the re-oriented cell is fully periodic, atoms on the faces of a non-periodic direction included ---
     for pbc in PBCS:
@@ -873,6 +984,9 @@ def correspond(ctx):
         _corr_rotate(ctx, am, sysm, fam, U, d, 'rotate-outside', U, 'int-list')
     # --- the lattice-site test of conventional_to_primitive (periodic lookup) ---
     _corr_basis(ctx, rng, am)
+    # --- the crystal family and the setting the conversion works with, at the caller's tolerances ---
+    _corr_family(ctx, rng, am)
+    _corr_resolve(ctx, rng, am)
 
 
 def _unit_system(am):
@@ -1298,6 +1412,17 @@ def search(ctx, broken):
         tol = rng.choice([None] * 8 + [2.3e-5, 7e-9, [1.7e-6, 1.1e-8], (1.3e-4,), [1.1e-3, 2.3e-5]])
         ctx.stats.case('oracle:rotate', (fam, repr(np.asarray(arg).tolist()), tuple(spos), repr(tol)))
         _oracle_rotate(ctx, am, sysm, fam, spos, U, d, arg, form, accepted, 'rotate', tol=tol)
+    # exactly ON a rung of the ladder (single, unambiguous placements): the rung may miscount, the next one must deliver
+    for it in range(ctx.n(80, 600) * scale):
+        sysm, fam, spos, U, d, tol, rung = gen_onrung_case(rng, am, it)
+        ctx.stats.case('oracle:rotate-onrung', (fam, repr(U), tuple(spos), repr(tol)))
+        try:
+            # (evidence only: how often the rung alone fails on such a placement - the class "first tolerance fails")
+            sysm.rotate(U, tol=float(rung))
+        except Exception:  # noqa
+            ctx.extra['onrung_single_rung_fails'] = ctx.extra.get('onrung_single_rung_fails', 0) + 1
+        ctx.extra['onrung_cases'] = ctx.extra.get('onrung_cases', 0) + 1
+        _oracle_rotate(ctx, am, sysm, fam, spos, U, d, U, 'int-list', True, 'rotate', tol=tol)
     # the identity shortcut and one more matrix under each of the 8 pbc settings
     for rep in range(ctx.n(2, 6) * scale):
         for pbc in PBCS:
@@ -1329,7 +1454,208 @@ def search(ctx, broken):
         except Exception as e:  # noqa
             ctx.violate('rotate:refusal', f'rotate raised {type(e).__name__} ({e}) instead of ValueError for {why} '
                         f'vectors {bad}', {'op': 'rotate-refusal', 'U': bad})
+    _search_counts(ctx, rng, am, scale)
     _search_conversions(ctx, rng, am)
+
+
+# ----------------------------------------------------------------------------------------------
+# counts and thresholds: every replication count along one axis, totals around powers of two, large inputs
+# ----------------------------------------------------------------------------------------------
+def float_division_traps(limit):
+    """counts k for which float bookkeeping of "k steps of 1/k" goes wrong in one of the usual ways: a float-step
+    np.arange(0, 1, 1/k) one element too long, k * (1/k) != 1, int(1 / (1/k)) != k (computed with numpy, not read from the
+    code under test): 49, 93, 98, 99, 103, 105, 107, 117, ..."""
+    np = _np()
+    return [k for k in range(1, limit + 1)
+            if len(np.arange(0, 1, 1 / k)) != k or k * (1 / k) != 1.0 or int(1 / (1 / k)) != k]
+
+
+def grid_system(am, rng, natoms, G=8192, fam_box=None):
+    """a cell with `natoms` atoms at distinct points of the 1/G grid (exact), two types, a float and a unique integer
+    per-atom property: large inputs without any float noise in the relative coordinates."""
+    box, fam = fam_box or gen_box(rng, am)
+    seen = set()
+    while len(seen) < natoms:
+        seen.add((rng.randrange(G), rng.randrange(G), rng.randrange(G)))
+    pts = sorted(seen)
+    rng.shuffle(pts)
+    case = {'vects': box.vects.tolist(), 'origin': box.origin.tolist(), 'spos': [[x / G for x in pnt] for pnt in pts],
+            'atype': [1 + (i % 2) for i in range(natoms)] if natoms > 1 else [1],
+            'props': [['q', 'f', [((i * 37) % 64) / 16 - 2 for i in range(natoms)]], ['tag', 'i', list(range(1, natoms + 1))]],
+            'pbc': [True, True, True], 'symbols': None, 'history': []}
+    return build_system(am, case), fam, pts
+
+
+def _fast_same_crystal(ctx, key, what, sysm, pts, G, new, T, count, replay, shifts=None):
+    """the clauses of `_check_same_crystal`, vectorised for large results: the originals sit on the exact 1/G grid
+    (`pts`: integer numerators), so "maps onto an original atom modulo the lattice" is a dictionary lookup of the nearest
+    grid point of each result atom, the residual compared at the rounding bound; types and every per-atom value equal;
+    each original `count` times with pairwise different lattice shifts (`shifts`: exactly these, as a set of integer
+    triples, for supersize)."""
+    np = _np()
+    if new.natoms != count * sysm.natoms:
+        ctx.violate(key + ':count', f'{what}: {new.natoms} atoms, expected {count} x {sysm.natoms}', replay)
+        return False
+    vol0, vol1 = abs(float(np.linalg.det(sysm.box.vects))), new.box.volume
+    if not (vol1 > 0) or abs(vol1 - count * vol0) > 1e-8 * abs(vol1):
+        ctx.violate(key + ':volume', f'{what}: volume {vol1}, expected {count} x {vol0}', replay)
+        return False
+    if sorted(new.atoms_prop()) != sorted(sysm.atoms_prop()) or tuple(new.symbols) != tuple(sysm.symbols):
+        ctx.violate(key + ':properties', f'{what}: per-atom properties {sorted(new.atoms_prop())} / symbols {new.symbols}, '
+                    f'original {sorted(sysm.atoms_prop())} / {sysm.symbols}', replay)
+        return False
+    tol = _tol_rel(np, sysm.box.vects, new.atoms.pos, sysm.box.origin, new.box.vects)
+    rel = (new.atoms.pos @ T - sysm.box.origin) @ np.linalg.inv(sysm.box.vects)       # rows: T^T pos
+    g = np.rint(rel * G)
+    if np.abs(rel * G - g).max() > tol * G:
+        k = int(np.abs(rel * G - g).max(axis=1).argmax())
+        ctx.violate(key + ':member', f'{what}: result atom {k} sits at relative {rel[k].tolist()} of the original cell, '
+                    f'{np.abs(rel[k] * G - g[k]).max() / G:.3g} of a cell from the nearest point of the 1/{G} grid all '
+                    f'original atoms are on (rounding bound {tol:.1e})', replay)
+        return False
+    g = g.astype(np.int64)
+    cellshift = np.floor_divide(g, G)
+    site = g - cellshift * G
+    index = {pnt: i for i, pnt in enumerate(pts)}
+    orig = np.array([index.get(tuple(r), -1) for r in site.tolist()])
+    if (orig < 0).any():
+        k = int(np.where(orig < 0)[0][0])
+        ctx.violate(key + ':member', f'{what}: result atom {k} (relative {rel[k].tolist()}) maps onto no original atom modulo '
+                    f'the original lattice', replay)
+        return False
+    for name in sysm.atoms_prop():
+        if name == 'pos':
+            continue
+        if not np.array_equal(np.asarray(new.atoms.view[name]), np.asarray(sysm.atoms.view[name])[orig]):
+            k = int(np.where(np.asarray(new.atoms.view[name]) != np.asarray(sysm.atoms.view[name])[orig])[0][0])
+            ctx.violate(key + ':member', f'{what}: result atom {k} maps onto original atom {int(orig[k])} but its {name!r} is '
+                        f'{new.atoms.view[name][k]!r}, the original\'s {sysm.atoms.view[name][orig[k]]!r}', replay)
+            return False
+    hits = np.bincount(orig, minlength=sysm.natoms)
+    if (hits != count).any():
+        ctx.violate(key + ':representation', f'{what}: originals represented {sorted(set(hits.tolist()))} times, expected '
+                    f'{count} each', replay)
+        return False
+    full = np.concatenate([orig[:, None], cellshift], axis=1)
+    if len(np.unique(full, axis=0)) != new.natoms:
+        ctx.violate(key + ':coincide', f'{what}: two result atoms are the same original atom in the same cell', replay)
+        return False
+    if shifts is not None and set(map(tuple, cellshift.tolist())) != shifts:
+        ctx.violate(key + ':member', f'{what}: the replicas do not fill the cells {sorted(shifts)[:3]} .. of the supercell', replay)
+        return False
+    return True
+
+
+def count_form(rng, n):
+    """a replication count n along one axis as the multiplier argument: n, -n or a two-sided tuple (Python / numpy ints)."""
+    np = _np()
+    r = rng.randrange(4)
+    if r == 0:
+        return n
+    if r == 1:
+        return -n
+    if r == 2:
+        return rng.choice([np.int64, np.int32])(n * rng.choice([-1, 1]))
+    lo = -rng.randint(0, n)
+    return (lo, lo + n)
+
+
+def _search_counts(ctx, rng, am, scale=1):
+    """every replication count 1 .. 260 (thorough: 1 .. 1100 and the float-division trap values up to 5000) along one
+    axis of small cells, through supersize directly and (a sample; thorough: many) through rotate, whose bounding supercell
+    then spans that many cells; totals / input sizes around powers of two."""
+    np = _np()
+    I3 = np.eye(3)
+    top = ctx.n(260, 1100)
+    counts = list(range(1, top + 1)) + float_division_traps(5000 if ctx.thorough else 1100)
+    counts = sorted(set(counts))
+    traps = [k for k in float_division_traps(top)]
+    ctx.extra['count_cases'] = {'supersize_counts': f'1..{top} + traps to ' + ('5000' if ctx.thorough else '1100'), 'traps': traps[:40]}
+    G = 8
+    for n in counts:
+        natoms = 1 if n > 400 else rng.choice([1, 1, 2, 3])
+        sysm, fam, pts = grid_system(am, rng, natoms, G=G)
+        axis = rng.randrange(3)
+        sizes = [rng.choice([1, 1, 1, 2, -1, (-1, 1)]) if n < 120 else 1 for _ in range(3)]
+        sizes[axis] = count_form(rng, n)
+        ns = [norm_size(x) for x in sizes]
+        M = math.prod(h - l for l, h in ns)
+        what = f'supersize{sizes_repr(sizes)} of a {natoms}-atom {fam} cell ({n} replicas along axis {axis})'
+        replay = {'op': 'supersize', 'family': fam, 'case': sysm._c04, 'spos': sysm._c04['spos'], 'sizes': [list(x) for x in ns],
+                  'sizes_given': sizes_repr(sizes)}
+        ctx.stats.case('oracle:supersize-count', (n, axis, sizes_repr(sizes), natoms))
+        try:
+            new = sysm.supersize(*sizes)
+        except Exception as e:  # noqa
+            ctx.violate('supersize:raises', f'{what} raised {type(e).__name__}: {e} for valid integer multipliers', replay)
+            continue
+        shifts = set(itertools.product(*[range(l, h) for l, h in ns]))
+        if _fast_same_crystal(ctx, 'supersize', what, sysm, pts, G, new, I3, M, replay, shifts=shifts):
+            V0, o0 = sysm.box.vects, sysm.box.origin
+            wantv = np.array([V0[i] * (ns[i][1] - ns[i][0]) for i in range(3)])
+            wanto = o0 + sum(V0[i] * ns[i][0] for i in range(3))
+            if not (np.allclose(new.box.vects, wantv, rtol=1e-12, atol=1e-9) and np.allclose(new.box.origin, wanto, rtol=1e-12, atol=1e-9)):
+                ctx.violate('supersize:box', f'{what}: box {new.box.vects.tolist()} at {new.box.origin.tolist()}, expected the '
+                            f'multiplied vectors {wantv.tolist()} at {wanto.tolist()}', replay)
+    # rotate: a bounding supercell spanning n cells along one axis (n - 2 of them inside the new cell): the trap values
+    # below 120 on every run, a rotating sample of the others (thorough: every n up to 130 and every trap up to 260)
+    small = [k for k in traps if k <= 120]
+    spans = sorted(set(small + rng.sample(range(3, 130), ctx.n(6, 40) * scale) + rng.sample([k for k in traps if k > 120] or [49], ctx.n(1, 6))
+                       + (list(range(3, 131)) + traps if ctx.thorough else [])))
+    for n in spans:
+        sysm, fam, pts = grid_system(am, rng, rng.choice([1, 1, 2]), G=G)
+        axis = rng.randrange(3)
+        U = [[1 if i == j else 0 for j in range(3)] for i in range(3)]
+        sg = rng.choice([-1, 1])
+        k = rng.randint(0, n - 3) if (n > 3 and rng.random() < 0.5) else 0
+        # the long vector [n-2-k, 0, 0] and a second one sheared by k along it: the corners span n - 2 cells (+ 2 of padding)
+        U[axis][axis] = (n - 2 - k) * sg
+        U[(axis + 1) % 3][axis] = k * sg
+        d = _det3(U)
+        spos = [tuple(Fraction(x, G) for x in pnt) for pnt in pts]
+        ctx.stats.case('oracle:rotate-span', (n, repr(U), sysm.natoms))
+        _oracle_rotate(ctx, am, sysm, fam + f'+span{n}', spos, U, d, U, 'int-list', True, 'rotate')
+    # totals and input sizes around powers of two (one or two per run; thorough: all of them)
+    big = [(1, (16, 16, 16)), (1, (17, 241, 1)), (1, (5, 9, 91)), (3, (1, 1365, 1)), (4095, (1, 1, 1)), (4096, (-1, 1, 1)),
+           (4097, (1, 2, 1)), (2049, (1, 1, -2)), (1025, (2, 2, 1)), (1, (1, 1, 4097)), (1023, (1, -3, 1))]
+    if ctx.thorough:
+        big += [(1, (65537, 1, 1)), (1, (15, 17, 257)), (1, (16, 64, 64)), (65537, (1, 1, 1)), (65535, (1, 2, 1)), (8193, (2, 1, 2))]
+    todo = big if ctx.thorough else rng.sample(big, 2 * scale if 2 * scale <= len(big) else len(big))
+    for natoms, sizes in todo:
+        sysm, fam, pts = grid_system(am, rng, natoms)
+        ns = [norm_size(x) for x in sizes]
+        M = math.prod(h - l for l, h in ns)
+        what = f'supersize{sizes} of a {natoms}-atom {fam} cell ({natoms * M} atoms)'
+        replay = {'op': 'supersize-big', 'natoms': natoms, 'sizes': list(sizes), 'vects': sysm.box.vects.tolist(),
+                  'origin': sysm.box.origin.tolist()}
+        ctx.stats.case('oracle:supersize-big', (natoms, sizes, fam))
+        try:
+            new = sysm.supersize(*sizes)
+        except Exception as e:  # noqa
+            ctx.violate('supersize:raises', f'{what} raised {type(e).__name__}: {e} for valid integer multipliers', replay)
+            continue
+        _fast_same_crystal(ctx, 'supersize', what, sysm, pts, 8192, new, I3, M, replay,
+                           shifts=set(itertools.product(*[range(l, h) for l, h in ns])))
+    # rotate of a large input (unimodular and small-determinant vectors)
+    for natoms in (big_n for big_n in (rng.sample([1023, 1025, 2049, 4095, 4096, 4097], 1) if not ctx.thorough
+                                       else [1023, 1025, 2049, 4095, 4096, 4097, 8193])):
+        sysm, fam, pts = grid_system(am, rng, natoms)
+        U = rng.choice([[[0, 1, 0], [0, 0, 1], [1, 0, 0]], [[1, 1, 0], [0, 1, 0], [0, 0, 1]], [[1, 0, 0], [0, 1, 0], [0, 0, 1]],
+                        [[1, -1, 0], [1, 1, 0], [0, 0, 1]], [[2, 0, 0], [0, 1, 0], [0, 0, 1]]])
+        d = _det3(U)
+        what = f'rotate {U} of a {natoms}-atom {fam} cell'
+        replay = {'op': 'rotate-big', 'natoms': natoms, 'U': U, 'vects': sysm.box.vects.tolist(), 'origin': sysm.box.origin.tolist()}
+        ctx.stats.case('oracle:rotate-big', (natoms, repr(U), fam))
+        try:
+            new, T = sysm.rotate(U, return_transform=True)
+        except Exception as e:  # noqa
+            ctx.violate('rotate:raises', f'{what} raised {type(e).__name__}: {e}', replay)
+            continue
+        if _fast_same_crystal(ctx, 'rotate', what, sysm, pts, 8192, new, T, abs(d), replay):
+            sp = new.atoms_prop('pos', scale=True)
+            if sp.min() < -1e-9 or sp.max() > 1 + 1e-9 or not new.box.is_lammps_norm():
+                ctx.violate('rotate:inside', f'{what}: atoms outside the new cell / cell not LAMMPS-compatible', replay)
+            _check_new_vectors(ctx, 'rotate:vectors', what, sysm, U, new, T, replay)
 
 
 # lattice sites of the conventional cell per setting: numerators over the denominator
@@ -1351,30 +1677,91 @@ CONV_FAMILIES = {'p': ['cubic', 'hexagonal', 'tetragonal', 'rhombohedral', 'orth
                  'c': ['monoclinic', 'orthorhombic'], 't1': ['hexagonal'], 't2': ['hexagonal']}
 
 
-def gen_conv_box(rng, am, setting, plain=False):
-    fam = rng.choice(CONV_FAMILIES[setting])
+# coincidentally EQUAL lattice constants / angles per crystal family: label -> is the cell still a member of the family
+# by the library's own definition (the preconditions of Box.orthorhombic / monoclinic / triclinic: a != b and a != c,
+# alpha != beta and alpha != gamma - nothing about b vs c or beta vs gamma; Box.hexagonal: nothing about c vs a).
+# Members must be converted with the default check_family=True; the others (an axis-permuted tetragonal metric, ...) only
+# with check_family=False, the documented switch for non-conventional cells.
+EQUAL_PATTERNS = {
+    'orthorhombic': {'b=c': True, 'a=c': False, 'a=b': False},
+    'monoclinic': {'b=c': True, 'a=c': False, 'a=b': False, 'a=b=c': False},
+    'triclinic': {'b=c': True, 'beta=gamma': True, 'b=c,beta=gamma': True, 'a=b': False, 'a=c': False, 'a=b=c': False,
+                  'alpha=beta': False, 'alpha=gamma': False},
+    'hexagonal': {'c=a': True},
+}
+
+
+def family_member(fam, a, b, c, al, be, ga):
+    """does the library's own constructor for the family take these constants (the independent statement of what a cell
+    of the family is)? None when the family has no constraint to violate here."""
+    import atomman as am
+    try:
+        if fam == 'orthorhombic':
+            am.Box.orthorhombic(a, b, c)
+        elif fam == 'monoclinic':
+            am.Box.monoclinic(a, b, c, be)
+        elif fam == 'triclinic':
+            am.Box.triclinic(a, b, c, al, be, ga)
+        else:
+            # (hexagonal: c = a does not change the symmetry of a hexagonal lattice, the cell stays a hexagonal cell - the
+            # predicate Box.ishexagonal does not look at c; the constructor Box.hexagonal refuses a == c, it cannot tell
+            # the call from a cubic one)
+            return None
+        return True
+    except ValueError:
+        return False
+
+
+def gen_conv_box(rng, am, setting, plain=False, equal=False):
+    """(box, family label, member): `equal` - two or three of the lattice constants (or two angles) coincide; `member` -
+    the cell is a cell of the family by the library's definition (then check_family=True must accept it)."""
+    fam = (equal[0] if isinstance(equal, tuple) else
+           rng.choice([f for f in CONV_FAMILIES[setting] if f in EQUAL_PATTERNS] if equal else CONV_FAMILIES[setting]))
     a, b, c = rng.choice([3.0, 3.25, 4.0]), rng.choice([4.5, 5.0]), rng.choice([5.75, 6.5, 7.0])
     org = [cm.dyadic(rng, -3, 3, 2) for _ in range(3)] if (rng.random() < 0.5 and not plain) else [0.0, 0.0, 0.0]
+    al, be, ga = 90.0, 90.0, 90.0
+    if fam == 'monoclinic':
+        be = rng.choice([95.0, 104.5, 110.0])
+    elif fam == 'triclinic':
+        al, be, ga = rng.choice([81.0, 97.0]), rng.choice([75.0, 104.0]), rng.choice([66.0, 101.0])
+    member, label = True, fam
+    if equal:
+        pat = equal[1] if isinstance(equal, tuple) else rng.choice(sorted(EQUAL_PATTERNS[fam]))
+        member, label = EQUAL_PATTERNS[fam][pat], f'{fam}[{pat}]'
+        for eq in pat.split(','):
+            if eq == 'b=c':
+                c = b
+            elif eq == 'a=c':
+                c = a
+            elif eq == 'a=b':
+                b = a
+            elif eq == 'a=b=c':
+                b = c = a
+            elif eq == 'c=a':
+                c = a
+            elif eq == 'beta=gamma':
+                ga = be = rng.choice([75.0, 101.0])
+            elif eq == 'alpha=beta':
+                al = be = rng.choice([81.0, 97.0])
+            elif eq == 'alpha=gamma':
+                al = ga = rng.choice([81.0, 97.0])
+        if family_member(fam, a, b, c, al, be, ga) not in (member, None):
+            raise AssertionError(f'{label}: the family constructor of the library and EQUAL_PATTERNS disagree')
     if fam == 'cubic':
         box = am.Box(a=a, b=a, c=a, origin=org)
     elif fam == 'tetragonal':
         box = am.Box(a=a, b=a, c=c, origin=org)
-    elif fam == 'orthorhombic':
-        box = am.Box(a=a, b=b, c=c, origin=org)
     elif fam == 'hexagonal':
         box = am.Box(a=a, b=a, c=c, gamma=120, origin=org)
-    elif fam == 'monoclinic':
-        box = am.Box(a=a, b=b, c=c, beta=rng.choice([95.0, 104.5, 110.0]), origin=org)
     elif fam == 'rhombohedral':
         al = rng.choice([60.0, 75.0, 100.0])
         box = am.Box(a=a, b=a, c=a, alpha=al, beta=al, gamma=al, origin=org)
-    else:
-        box = am.Box(a=a, b=b, c=c, alpha=rng.choice([81.0, 97.0]), beta=rng.choice([75.0, 104.0]),
-                     gamma=rng.choice([66.0, 101.0]), origin=org)
-    return box, fam
+    else:   # orthorhombic, monoclinic, triclinic
+        box = am.Box(a=a, b=b, c=c, alpha=al, beta=be, gamma=ga, origin=org)
+    return box, label, member
 
 
-def gen_conv_case(rng, am, setting, mode='random'):
+def gen_conv_case(rng, am, setting, mode='random', equal=False, decimals=None):
     """a conventional cell of the setting: 1-3 motif atoms per lattice point (the first one, type 1, on the lattice
     points; types, charges and tags are functions of the motif atom - the crystal has the primitive periodicity).
     Storage: `plain` = every coordinate in [0, 1); otherwise a coordinate 0 is stored as 1.0 (the far face / edge /
@@ -1411,7 +1798,7 @@ def gen_conv_case(rng, am, setting, mode='random'):
                     if t[k] == 0 and (mode == 'far' or rng.random() < 0.5):
                         t[k] = Fraction(1)
         stored.append(tuple(t))
-    box, fam = gen_conv_box(rng, am, setting, plain=(mode == 'plain'))
+    box, fam, member = gen_conv_box(rng, am, setting, plain=(mode == 'plain'), equal=equal)
     if mode == 'random' and rng.random() < 1 / 6:
         box, fam = reorient(rng, am, box), fam + '-reoriented'
     shift = [Fraction(0)] * 3
@@ -1433,7 +1820,19 @@ def gen_conv_case(rng, am, setting, mode='random'):
     # flags) and what was done to the object before (isotropic dilations with the relative coordinates held: the crystal
     # family and the lattice sites survive)
     names = rng.sample(NAME_POOL, 2)
-    return {'setting': setting, 'family': fam, 'mode': mode, 'vects': box.vects.tolist(), 'origin': box.origin.tolist(),
+    tolerance = {}
+    if decimals is not None:
+        # the tolerance dimension: the cell is scaled by an odd factor (nothing is a short decimal number any more) and the
+        # CARTESIAN coordinates are then rounded to `decimals` places, as a structure file holds them; the lattice-site
+        # test needs the caller's (documented) looser `atol`, an absolute Cartesian distance: one decade above the rounding
+        # unit (the rounding error is at most 0.87 units); `rtol` only enters the family test (isclose against 0.0 for the
+        # sites): any value that keeps constants 5 % apart distinct is as good as the default
+        tolerance = {'decimals': decimals, 'scale': rng.choice([1.0123457, 0.9871239, 1.1000003]),
+                     'atol': 10.0 ** (1 - decimals), 'rtol': rng.choice([None, None, 1e-5, 1e-7, 1e-3, 0.0]),
+                     # the documented small shift of the primitive-cell cut, now and then given explicitly
+                     'smallshift': rng.choice([None, None, None, [0.002, 0.001, 0.003], (0.001, 0.001, 0.001)])}
+    return {'setting': setting, 'family': fam, 'family_member': member, 'mode': mode, **tolerance,
+            'vects': box.vects.tolist(), 'origin': box.origin.tolist(),
             'shift': [[x.numerator, x.denominator] for x in shift],
             'symbols': rng.sample(['Al', 'Ni', 'Cu', 'Fe', 'O'], len(set(mtype))) if rng.random() < 0.5 else None,
             'stored': [[float(x) for x in t] for t in stored], 'atype': [mtype[j] for j in midx],
@@ -1453,6 +1852,10 @@ def build_conv(am, case):
                      pbc=case.get('pbc', (True, True, True)), symbols=case.get('symbols'))
     for op in case.get('history', []):
         apply_op(conv, op)
+    if case.get('decimals') is not None:
+        f = case['scale']
+        conv.box_set(vects=conv.box.vects * f, origin=conv.box.origin * f, scale=True)
+        conv.atoms.pos = np.round(conv.atoms.pos, case['decimals'])
     return conv
 
 
@@ -1528,6 +1931,43 @@ def _search_conversions(ctx, rng, am):
             ctx.stats.case('oracle:conversion', (setting, repr(case['stored']), case['call_setting'], repr(case['vects'])),
                            sample={'op': 'c2p->p2c', 'setting': setting, 'family': case['family'],
                                    'natoms': len(case['atype']), 'storage': case['mode']})
+            if case['check_basis'] and rng.random() < 0.1:
+                case['check_family'] = False        # (the documented switch, on a cell that would pass the family test)
+            _run_conversion(ctx, am, case)
+        # coincidentally EQUAL lattice constants / angles (b = c, a = c, a = b = c with oblique angles, beta = gamma,
+        # hexagonal c = a): members of the family by the library's own definition with the default check_family=True, the
+        # others with check_family=False
+        if any(f in EQUAL_PATTERNS for f in CONV_FAMILIES[setting]):
+            pats = [(f, pt) for f in CONV_FAMILIES[setting] if f in EQUAL_PATTERNS for pt in sorted(EQUAL_PATTERNS[f])]
+            members = [x for x in pats if EQUAL_PATTERNS[x[0]][x[1]]]
+            others = [x for x in pats if not EQUAL_PATTERNS[x[0]][x[1]]]
+            # every member pattern of every family of the setting on every run (twice for the centred settings), and a
+            # sample of the others
+            todo = (members * (1 if setting == 'p' else 2) + rng.sample(others, min(3, len(others)))) * ctx.n(1, 5)
+            for variant, eq in enumerate(todo):
+                case = gen_conv_case(rng, am, setting, mode=rng.choice(['plain', 'far', 'random']), equal=eq)
+                case['op'] = 'conversion'
+                case['call_setting'] = 't' if setting[0] == 't' and variant % 2 == 0 else setting
+                case['check_basis'] = True
+                case['check_family'] = case['family_member'] and variant % 5 != 4
+                ctx.stats.case('oracle:conversion-equal', (setting, repr(case['stored']), case['family'], repr(case['vects'])),
+                               sample={'op': 'c2p->p2c', 'setting': setting, 'family': case['family'],
+                                       'check_family': case['check_family'], 'storage': case['mode']})
+                ctx.extra.setdefault('conversion_equal_constants', {})
+                ctx.extra['conversion_equal_constants'][case['family']] = ctx.extra['conversion_equal_constants'].get(case['family'], 0) + 1
+                _run_conversion(ctx, am, case)
+        # the tolerance dimension: Cartesian coordinates rounded to 5 .. 8 decimals, converted with the matching looser
+        # `atol` (and any `rtol`, now and then an explicit `smallshift`); the t cells every other time through the
+        # self-detecting 't'
+        for variant in range(ctx.n(4, 24)):
+            case = gen_conv_case(rng, am, setting, mode=('plain', 'far')[(variant // 4) % 2] if variant % 3 else 'plain',
+                                 decimals=5 + variant % 4)
+            case['op'] = 'conversion'
+            case['call_setting'] = 't' if setting[0] == 't' and variant % 2 == 0 else setting
+            case['check_basis'] = True
+            ctx.stats.case('oracle:conversion-decimals', (setting, repr(case['stored']), case['decimals'], repr(case['vects'])),
+                           sample={'op': 'c2p->p2c', 'setting': setting, 'called': case['call_setting'], 'family': case['family'],
+                                   'decimals': case['decimals'], 'atol': case['atol'], 'rtol': case['rtol']})
             _run_conversion(ctx, am, case)
     # multi-type cells whose centring sites hold another type: refusal required
     for setting in CONV_SITES:
@@ -1546,14 +1986,26 @@ def _run_conversion(ctx, am, case):
     setting = case['setting']
     conv = build_conv(am, case)
     replay = case
+    kw = {}
+    if not case.get('check_family', True):
+        kw['check_family'] = False
+    dec = case.get('decimals')
+    if dec is not None:
+        kw['atol'] = case['atol']
+        if case.get('rtol') is not None:
+            kw['rtol'] = case['rtol']
+        if case.get('smallshift') is not None:
+            kw['smallshift'] = case['smallshift']
     what = (f"{case['family']} cell, setting {setting}" + (" (called with 't')" if case['call_setting'] != setting else '')
-            + ('' if case['check_basis'] else ', check_basis=False') + f", relative positions {case['stored']}"
+            + ('' if case['check_basis'] else ', check_basis=False')
+            + (f", cell x {case['scale']} with the Cartesian coordinates rounded to {dec} decimals" if dec is not None else '')
+            + (f", options {kw}" if kw else '') + f", relative positions {case['stored']}"
             + (f", pbc {case['pbc']}" if not all(case.get('pbc', [True])) else '')
             + (f", history on the object {case['history']}" if case.get('history') else ''))
     before = conv.atoms.pos.copy()
     try:
         prim, T1 = conv.dump('conventional_to_primitive', setting=case['call_setting'], return_transform=True,
-                             check_basis=case['check_basis'])
+                             check_basis=case['check_basis'], **kw)
         conv2, T2 = prim.dump('primitive_to_conventional', setting=setting, return_transform=True)
     except Exception as e:  # noqa
         if isinstance(e, ValueError) and 'Filtering failed' in str(e) and any(x < 0 or x > 1 for t in case['stored'] for x in t):
@@ -1571,7 +2023,14 @@ def _run_conversion(ctx, am, case):
         return
     # prim and conv2 describe conv's crystal through the transforms
     sp_exact = [tuple(frac_mod1(x) for x in t) for t in conv_exact_spos(case)]
-    if not _check_same_crystal_partial(ctx, 'conversion:c2p', f'conventional_to_primitive: {what}', conv, sp_exact, prim, T1, replay):
+    ext = 0.0
+    if dec is not None:
+        # coordinates rounded to `dec` decimals: the originals are where the rounded numbers say (exact relative coordinates
+        # of the object's visible state); the crystal has the primitive periodicity to within two rounding errors only
+        sp_exact = [tuple(frac_mod1(x) for x in t) for t in exact_rel(conv)]
+        ext = 2 * 10.0 ** -dec * float(np.abs(np.linalg.inv(conv.box.vects)).sum(axis=0).max())
+    if not _check_same_crystal_partial(ctx, 'conversion:c2p', f'conventional_to_primitive: {what}', conv, sp_exact, prim, T1, replay,
+                                       extra_tol=ext):
         return
     if not (prim.box.is_lammps_norm() and conv2.box.is_lammps_norm()):
         ctx.violate('conversion:lammps-normal', f'converted cell is not LAMMPS-compatible ({what})', replay)
@@ -1580,7 +2039,8 @@ def _run_conversion(ctx, am, case):
         if sp.min() < -1e-9 or sp.max() > 1 + 1e-9:
             ctx.violate('conversion:inside', f'{nm} cell has atoms outside (rel range {sp.min()}..{sp.max()}; {what})', replay)
     Ttot = T2 @ T1
-    if not _check_same_crystal(ctx, 'conversion:roundtrip', f'c2p then p2c: {what}', conv, sp_exact, conv2, Ttot, 1, replay):
+    if not _check_same_crystal(ctx, 'conversion:roundtrip', f'c2p then p2c: {what}', conv, sp_exact, conv2, Ttot, 1, replay,
+                               extra_tol=ext):
         return
     # "undo one another": the composite is the identity re-expression - same cell vectors, composite
     # transform = identity, and the atoms are the original ones modulo the lattice *without* any rotation
@@ -1593,7 +2053,7 @@ def _run_conversion(ctx, am, case):
                     f'is not the identity ({what})', replay)
     else:
         _check_same_crystal(ctx, 'conversion:undo', f'c2p then p2c compared in place: {what}', conv,
-                            sp_exact, conv2, np.eye(3) if conv.box.is_lammps_norm() else Ttot, 1, replay)
+                            sp_exact, conv2, np.eye(3) if conv.box.is_lammps_norm() else Ttot, 1, replay, extra_tol=ext)
         # ... and the other way round: the primitive cell converted to the conventional one and back is itself.
         # (check_basis=False: conv2 sits at the Cartesian origin with the atoms' Cartesian positions kept, so for an
         # original box origin that is no lattice vector its lattice points are not at its relative (0,0,0), which is
@@ -1611,7 +2071,7 @@ def _run_conversion(ctx, am, case):
             ctx.violate('conversion:p2c-undone', f'p2c then c2p does not return the primitive cell: {prim.box.vects.tolist()} '
                         f'-> {prim2.box.vects.tolist()}, composite transform {T32.tolist()} ({what})', replay)
         else:
-            tol = _tol_rel(np, prim.box.vects, prim.atoms.pos, prim2.atoms.pos)
+            tol = _tol_rel(np, prim.box.vects, prim.atoms.pos, prim2.atoms.pos) + 2 * ext
             s1 = prim.atoms_prop('pos', scale=True)
             s2 = prim2.atoms_prop('pos', scale=True)
             for k in range(prim2.natoms):
@@ -1683,12 +2143,222 @@ def _corr_basis(ctx, rng, am):
                              {'op': 'basis', 'line': line, 'case': case, 'asked': ask_setting})
 
 
-def _check_same_crystal_partial(ctx, key, what, sysm, spos, new, T, replay):
+TOLS = [(1e-5, 1e-8), (1e-5, 1e-8), (1e-3, 1e-8), (1e-7, 1e-10), (0.0, 0.0), (1e-5, 1e-3), (0.0, 1e-6), (2.5e-2, 1e-8)]
+
+
+def _six(box):
+    return [float(box.a), float(box.b), float(box.c), float(box.alpha), float(box.beta), float(box.gamma)]
+
+
+def _family_edge(six, rtol, atol):
+    """is one of the isclose tests of the family predicates decided within 1e-6 (relative) of its edge? (float vs exact)"""
+    a, b, c, al, be, ga = six
+    for x, y in ((a, b), (a, c), (al, 90.0), (be, 90.0), (ga, 90.0), (ga, 120.0), (al, be), (al, ga)):
+        lhs, rhs = abs(x - y), atol + rtol * abs(y)
+        if abs(lhs - rhs) <= 1e-6 * max(lhs, rhs) and max(lhs, rhs) > 0:
+            return True
+    return False
+
+
+def _corr_family(ctx, rng, am):
+    """Box.identifyfamily(rtol, atol) against the Lean model `identifyFamily` on the six lattice parameters the Box
+    reports: every family, coincidentally equal constants / angles in every slot (a=b, a=c, b=c, all three; alpha=beta,
+    alpha=gamma, beta=gamma), constants that differ by 3e-6 .. 1e-2 (relative) so that the CALLER's tolerances decide,
+    re-oriented cells (the parameters carry rounding noise then)."""
+    np = _np()
+    fams = ['cubic', 'hexagonal', 'tetragonal', 'rhombohedral', 'orthorhombic', 'monoclinic', 'triclinic']
+    for it in range(ctx.n(140, 900)):
+        fam = fams[it % 7]
+        a, b, c = rng.choice([3.0, 3.25, 4.0]), rng.choice([4.5, 5.0]), rng.choice([5.75, 6.5, 7.0])
+        al = be = ga = 90.0
+        if fam in ('cubic', 'rhombohedral'):
+            b = c = a
+        if fam in ('tetragonal', 'hexagonal'):
+            b = a
+        if fam == 'hexagonal':
+            ga = 120.0
+        if fam == 'rhombohedral':
+            al = be = ga = rng.choice([60.0, 75.0, 100.0])
+        if fam == 'monoclinic':
+            be = rng.choice([95.0, 104.5, 110.0])
+        if fam == 'triclinic':
+            al, be, ga = rng.choice([81.0, 97.0]), rng.choice([75.0, 104.0]), rng.choice([66.0, 101.0])
+        label = fam
+        r = rng.random()
+        if r < 0.35:
+            # coincidences in a slot the family does not fix
+            eq = rng.choice(['b=c', 'a=c', 'a=b', 'a=b=c', 'be=ga', 'al=be', 'al=ga'])
+            if eq == 'b=c':
+                c = b
+            elif eq == 'a=c':
+                c = a
+            elif eq == 'a=b':
+                b = a
+            elif eq == 'a=b=c':
+                b = c = a
+            elif eq == 'be=ga' and fam == 'triclinic':
+                ga = be
+            elif eq == 'al=be' and fam == 'triclinic':
+                be = al
+            elif eq == 'al=ga' and fam == 'triclinic':
+                ga = al
+            label += f'[{eq}]'
+        elif r < 0.7:
+            # nearly equal: the tolerances decide
+            e = rng.choice([3e-6, -3e-6, 3e-5, -3e-5, 2e-4, 1e-2, 1e-9])
+            slot = rng.choice(['b', 'c', 'be', 'ga', 'al'])
+            if slot == 'b':
+                b = a * (1 + e)
+            elif slot == 'c':
+                c = rng.choice([a, b]) * (1 + e)
+            elif slot == 'be':
+                be = be + 90 * e
+            elif slot == 'ga':
+                ga = ga + 90 * e
+            else:
+                al = al + 90 * e
+            label += f'[{slot}{e:+.0e}]'
+        try:
+            box = am.Box(a=a, b=b, c=c, alpha=al, beta=be, gamma=ga)
+        except Exception:  # noqa - not a cell
+            continue
+        if rng.random() < 0.25:
+            box = reorient(rng, am, box)
+            label += '-reoriented'
+        rtol, atol = rng.choice(TOLS)
+        six = _six(box)
+        if _family_edge(six, rtol, atol):
+            ctx.extra['family_edge_exempt'] = ctx.extra.get('family_edge_exempt', 0) + 1
+            continue
+        line = f'family {cm.fr(rtol)} {cm.fr(atol)} {cm.frs(six)}'
+        out = ctx.driver.ask(line)
+        ctx.stats.case('family', line, sample={'op': 'identifyfamily', 'cell': label, 'rtol': rtol, 'atol': atol})
+        try:
+            impl = box.identifyfamily(rtol=rtol, atol=atol) if (rtol, atol) != (1e-5, 1e-8) or rng.random() < 0.5 \
+                else box.identifyfamily()
+            impl = 'none' if impl is None else str(impl)
+        except Exception as e_:  # noqa
+            impl = f'raised {type(e_).__name__}: {e_}'
+        if impl != out:
+            ctx.disagree('family', f'Box.identifyfamily(rtol={rtol}, atol={atol}) of the cell a, b, c, alpha, beta, gamma = {six} '
+                         f'({label}): implementation {impl}, model {out}',
+                         {'op': 'family', 'six': six, 'rtol': rtol, 'atol': atol, 'vects': box.vects.tolist()})
+
+
+def _site_distances(np, conv, setting):
+    """Cartesian distances of every atom from the nearest periodic image of every lattice site of the setting (numpy,
+    independent of the library's dmag)."""
+    den, sites = CONV_SITES[setting]
+    s = np.linalg.solve(conv.box.vects.T, (conv.atoms.pos - conv.box.origin).T).T
+    out = []
+    for st in sites:
+        d = s - np.array(st, dtype=float) / den
+        d -= np.rint(d)
+        out.append(np.linalg.norm(d @ conv.box.vects, axis=1))
+    return np.array(out)
+
+
+def _corr_resolve(ctx, rng, am):
+    """which setting conventional_to_primitive works with - the family test and the lattice-site test at the CALLER's
+    rtol / atol, 't' resolved to t1 / t2 - against the Lean model `resolveSetting` / `checkSettingBasis`: valid cells
+    (exact, and with Cartesian coordinates rounded to 4 .. 8 decimals where the caller's atol decides on either side),
+    coincidentally equal lattice constants with check_family on and off, spoiled cells, 't' on t1, t2 and other cells."""
+    np = _np()
+    from atomman.dump.conventional_to_primitive.dump import check_setting_basis
+    todo = []
+    for setting in CONV_SITES:
+        for it in range(ctx.n(10, 60)):
+            todo.append((setting, it))
+    for setting, it in todo:
+        kind = ('exact', 'decimals', 'equal', 'decimals', 'spoiled', 'decimals', 'equal', 'exact', 'decimals', 'spoiled')[it % 10]
+        equal = kind == 'equal' and any(f in EQUAL_PATTERNS for f in CONV_FAMILIES[setting])
+        dec = 4 + (it // 2) % 5 if kind == 'decimals' else None
+        if equal and it % 10 == 2:
+            # a member of the family (b = c, beta = gamma, hexagonal c = a), asked with check_family=True
+            equal = rng.choice([(f, pt) for f in CONV_FAMILIES[setting] if f in EQUAL_PATTERNS
+                                for pt in sorted(EQUAL_PATTERNS[f]) if EQUAL_PATTERNS[f][pt]])
+        case = gen_conv_case(rng, am, setting, mode=rng.choice(['plain', 'far', 'random']), equal=equal, decimals=dec)
+        case['history'], case['pbc'] = [], [True, True, True]
+        if kind == 'spoiled':
+            per = len(case['atype']) // NLAT[setting]
+            k = rng.randrange(NLAT[setting]) * per
+            if rng.random() < 0.5:
+                case['stored'][k][rng.randrange(3)] += rng.choice([-1, 1]) * rng.choice([1 / 32, 1e-3, 1e-6])
+            else:
+                case['atype'][k] = max(case['atype']) + 1
+        conv = build_conv(am, case)
+        rtol, atol = rng.choice(TOLS)
+        # (atol = 0 asks "is the float distance exactly 0.0", which rounding decides, not the model: 1e-11 instead)
+        atol = atol or 1e-11
+        if dec is not None:
+            # every other time the tolerance a caller would pass for such a file (accepts), else one that does not
+            atol = 10.0 ** (1 - dec) if it % 10 in (1, 5) else rng.choice([10.0 ** (1 - dec), 10.0 ** (-2 - dec), 1e-8, 1e-3])
+        cf = (it % 10 == 2) if equal else rng.random() < 0.8
+        ask = setting
+        r = rng.random()
+        if setting[0] == 't' and (r < 0.5 or it % 10 in (1, 3, 5)):
+            ask = 't'
+        elif r < 0.12:
+            ask = rng.choice([x for x in list(CONV_SITES) + ['t'] if x != setting])
+        six = _six(conv.box)
+        # off the edges: no family comparison and no atom-site distance within 1e-6 (relative) of its threshold
+        dist = np.concatenate([_site_distances(np, conv, st_).ravel() for st_ in (['t1', 't2'] if ask == 't' else [ask])])
+        if _family_edge(six, rtol, atol) or (np.abs(dist - atol) <= 1e-6 * atol + 1e-14).any():
+            ctx.extra['resolve_edge_exempt'] = ctx.extra.get('resolve_edge_exempt', 0) + 1
+            continue
+        atoms = ' '.join(f'{int(t)} {cm.frs(pnt)}' for t, pnt in zip(conv.atoms.atype, conv.atoms.pos))
+        line = (f"resolve {ask} 1 {'1' if cf else '0'} {cm.fr(rtol)} {cm.fr(atol)} {cm.frs(six)} {conv.natoms} "
+                f"{cm.frs(conv.box.vects)} {cm.frs(conv.box.origin)} {atoms}")
+        out = ctx.driver.ask(line)
+        ctx.stats.case('resolve', line, sample={'op': 'c2p-setting', 'cell': setting, 'asked': ask, 'kind': kind,
+                                                'family': case['family'], 'check_family': cf, 'rtol': rtol, 'atol': atol,
+                                                'decimals': dec, 'model': out})
+        ctx.extra.setdefault('resolve_outcomes', {})
+        ctx.extra['resolve_outcomes'][f'{kind}:{out}'] = ctx.extra['resolve_outcomes'].get(f'{kind}:{out}', 0) + 1
+        kw = dict(rtol=rtol, atol=atol, check_family=cf)
+        if (rtol, atol) == (1e-5, 1e-8) and rng.random() < 0.5:
+            kw = dict(check_family=cf)
+        if cf and rng.random() < 0.5:
+            del kw['check_family']
+        rp = {'op': 'resolve', 'case': case, 'asked': ask, 'kw': {k_: float(v) if not isinstance(v, bool) else v for k_, v in kw.items()},
+              'line': line}
+        try:
+            if ask != 't':
+                # the function behind the explicit settings
+                impl = ask if check_setting_basis(conv, setting=ask, **kw) else 'err:value'
+            else:
+                prim, T = conv.dump('conventional_to_primitive', setting='t', return_transform=True, **kw)
+                impl = None
+                for cand in ('t1', 't2'):
+                    pc, Tc = conv.dump('conventional_to_primitive', setting=cand, return_transform=True, check_basis=False)
+                    if np.allclose(T, Tc, atol=1e-9):
+                        impl = cand if impl is None else 't1+t2'
+                impl = impl or 'neither'
+        except ValueError as e_:
+            if not any(w in str(e_) for w in ('seem to match', 'overlapping', 'invalid setting')):
+                # a refusal further down the pipeline (rotate's "Filtering failed" on coordinates rounded to 4 decimals)
+                ctx.extra['resolve_pipeline_refusal'] = ctx.extra.get('resolve_pipeline_refusal', 0) + 1
+                continue
+            impl = 'err:value'
+        except AssertionError:
+            # the primitive-cell cut further down the pipeline (coordinates rounded to 4 decimals against a small shift
+            # of 0.001): the setting was resolved, which one is not observable
+            ctx.extra['resolve_pipeline_assert'] = ctx.extra.get('resolve_pipeline_assert', 0) + 1
+            continue
+        except Exception as e_:  # noqa
+            impl = f'raised {type(e_).__name__}: {e_}'
+        if impl != out:
+            ctx.disagree('resolve', f"conventional_to_primitive(setting={ask!r}, {kw}) on a {case['family']} cell built for "
+                         f"setting {setting} ({kind}" + (f', Cartesian coordinates rounded to {dec} decimals' if dec else '')
+                         + f"; a, b, c, alpha, beta, gamma = {six}): the implementation works with {impl}, the model with {out}", rp)
+
+
+def _check_same_crystal_partial(ctx, key, what, sysm, spos, new, T, replay, extra_tol=0.0):
     """sub-cell version: every atom of `new` is an original atom modulo the original lattice, no two coincide."""
     np = _np()
     recs = _orig_records(sysm, spos)
     Vinv = np.linalg.inv(sysm.box.vects)
-    tol = _tol_rel(np, sysm.box.vects, new.atoms.pos, sysm.box.origin, new.box.vects) if new.natoms else 1e-9
+    tol = (_tol_rel(np, sysm.box.vects, new.atoms.pos, sysm.box.origin, new.box.vects) if new.natoms else 1e-9) + extra_tol
     if tuple(new.symbols) != tuple(sysm.symbols):
         ctx.violate(key, f'{what}: atom types stand for {tuple(new.symbols)}, originally {tuple(sysm.symbols)}', replay)
         return False
